@@ -111,6 +111,9 @@ func settle(cl *imapclient.Client) {
 	}
 }
 
+// scripts run over a connection whose writes return late
+var lateWrites = map[string]bool{"authslow": true}
+
 var seq12 = func() imap.SeqSet { var s imap.SeqSet; s.AddRange(1, 2); return s }()
 
 var scripts = map[string][]step{
@@ -162,6 +165,34 @@ var scripts = map[string][]step{
 		}, []seg{{1, fixed("+ go ahead\r\n")}, {4, tagged(0, "OK [APPENDUID 7 3] appended")}}, []int{1}},
 		{1, func(cl *imapclient.Client) []error { return one(cl.Noop().Wait()) },
 			[]seg{{1, fixed("* 3 EXISTS\r\n")}, {1, tagged(0, "OK noop")}}, []int{1}},
+	},
+	// the same exchange over a connection whose writes return late (the peer has read the octets and answered by
+	// the time the caller gets control back): whatever the client arranges after a write comes after the answer
+	"authslow": {
+		{1, func(cl *imapclient.Client) []error {
+			return one(cl.Authenticate(sasl.NewPlainClient("", "user", "pass")))
+		},
+			[]seg{{1, fixed("+ \r\n")}, {2, tagged(0, "OK [CAPABILITY IMAP4rev1 IDLE] authenticated")}}, []int{1}},
+		{1, func(cl *imapclient.Client) []error {
+			body := "Subject: x\r\n\r\n" + strings.Repeat("y", 30)
+			cmd := cl.Append("INBOX", int64(len(body)), nil)
+			cmd.Write([]byte(body))
+			cmd.Close()
+			_, err := cmd.Wait()
+			return one(err)
+		}, []seg{{1, fixed("+ go ahead\r\n")}, {4, tagged(0, "OK [APPENDUID 7 3] appended")}}, []int{1}},
+		{1, func(cl *imapclient.Client) []error {
+			idle, err := cl.Idle()
+			if err != nil {
+				return one(err)
+			}
+			if err := idle.Close(); err != nil {
+				return one(err)
+			}
+			return one(idle.Wait())
+		}, []seg{{1, fixed("+ idling\r\n")}, {2, tagged(0, "OK idle done")}}, []int{1}},
+		{1, func(cl *imapclient.Client) []error { return one(cl.Noop().Wait()) },
+			[]seg{{1, tagged(0, "OK noop")}}, []int{0}},
 	},
 	"idlepipe": {
 		{1, func(cl *imapclient.Client) []error { return one(cl.Login("u", "p").Wait()) },
@@ -470,6 +501,9 @@ func runCase(cs caseT) *runResult {
 	}
 	greeting := "* OK [CAPABILITY IMAP4rev1] ready\r\n"
 	sc.Write([]byte(greeting))
+	if lateWrites[cs.Script] {
+		cc.SetWriteLinger(300 * time.Microsecond)
+	}
 	cl := imapclient.New(cc, nil)
 	settlers.Store(cl, func() {
 		for i := 0; i < 20 && !sc.PeerBlockedInRead(); i++ {
